@@ -3,6 +3,7 @@ From Coq Require Import ZArith List.
 From Coq Require Import ExtrOcamlBasic.
 From Webp Require Conform.ConformFile.
 From Webp Require Conform.ConformVp8Hdr.
+From Webp Require Vp8.Vp8Spec.
 
 Separate Extraction
   BinInt.Z.add BinInt.Z.mul BinInt.Z.sub BinInt.Z.opp BinInt.Z.div BinInt.Z.modulo
